@@ -19,6 +19,7 @@ LEVEL = 'model_checking'
 MANIFEST = {
     'technique': 'exhaustive grid enumeration + explicit-state walk of the batch navigation graph on the real renderer',
     'text': 'Every tuple of the 5-dimensional batch parameter grid (per tier) is executed on the real code (opt(), rendered dtml-in with literals and through variables) and judged against a reference window model; the navigation graph (windows = states, printed next/previous start numbers = transitions) is walked to its end for every (length,size,orphan,overlap<size); at every visited window the next/previous forms of the tag and the next-batches / previous-batches lists are compared with the windows and announcements actually met.',
+    'more': 'Also: parameters reaching the tag through variables as texts int() understands (padded with any white space, signed, full-width digits); a start variable that is undefined or not a number (= start 1).',
     'note': 'Trusted: the 15-line reference window model in dtmc/props/c11.py; integer elements in a list; the exact window is pinned only for the start+size form as the statement says; the announced next start / previous end are judged for every way of asking for a batch (size omitted or < 1, explicit end, overlap >= size).',
 }
 RULE = ('every tuple of the integer grid (length x start x end x size x '
